@@ -4,6 +4,7 @@ import (
 	"bytes"
 	"encoding/binary"
 	"encoding/gob"
+	"io"
 	"math/big"
 	"regexp"
 
@@ -84,9 +85,24 @@ func DecodeAddresses(data []string) ([]common.Address, error) {
 	return addrs, nil
 }
 
+// EncodePureDKG serializes the state of a DKG instance. gob does not preserve nil entries of the
+// Commitments and Evals slices (they come back as empty, non-nil values), but puredkg relies on
+// nil meaning "not received yet". A second gob value therefore records which entries are present.
 func EncodePureDKG(p *puredkg.PureDKG) ([]byte, error) {
 	buff := bytes.Buffer{}
-	err := gob.NewEncoder(&buff).Encode(p)
+	enc := gob.NewEncoder(&buff)
+	err := enc.Encode(p)
+	if err != nil {
+		return nil, err
+	}
+	present := [][]bool{make([]bool, len(p.Commitments)), make([]bool, len(p.Evals))}
+	for i, c := range p.Commitments {
+		present[0][i] = c != nil
+	}
+	for i, e := range p.Evals {
+		present[1][i] = e != nil
+	}
+	err = enc.Encode(present)
 	if err != nil {
 		return nil, err
 	}
@@ -95,10 +111,33 @@ func EncodePureDKG(p *puredkg.PureDKG) ([]byte, error) {
 
 func DecodePureDKG(data []byte) (*puredkg.PureDKG, error) {
 	buf := bytes.NewBuffer(data)
+	dec := gob.NewDecoder(buf)
 	p := &puredkg.PureDKG{}
-	err := gob.NewDecoder(buf).Decode(p)
+	err := dec.Decode(p)
 	if err != nil {
 		return nil, err
+	}
+	var present [][]bool
+	err = dec.Decode(&present)
+	if err == io.EOF {
+		// written by a version that did not record which entries are present
+		return p, nil
+	}
+	if err != nil {
+		return nil, err
+	}
+	if len(present) != 2 || len(present[0]) != len(p.Commitments) || len(present[1]) != len(p.Evals) {
+		return nil, errors.New("inconsistent encoding of DKG state")
+	}
+	for i := range p.Commitments {
+		if !present[0][i] {
+			p.Commitments[i] = nil
+		}
+	}
+	for i := range p.Evals {
+		if !present[1][i] {
+			p.Evals[i] = nil
+		}
 	}
 	return p, nil
 }
